@@ -67,7 +67,7 @@ pub fn gen(sub: u64) -> W {
         line_numbers: rng.chance(3, 4),
         stop_nm: rng.chance(1, 8),
         crlf,
-        ctx_flag_style: rng.below(3),
+        ctx_flag_style: rng.below(7),
         byte_offset: rng.chance(1, 3),
         vimgrep: false,
         // (not with --crlf: flags that need the per-match printing path make it re-terminate
@@ -87,6 +87,11 @@ fn flags(w: &W) -> Vec<String> {
         match w.ctx_flag_style {
             0 if w.a == w.b => f.push(format!("-C{}", w.a)),
             1 => f.extend([format!("--after-context={}", w.a), format!("--before-context={}", w.b)]),
+            // -A and -B each override their side of -C, whichever comes first, also with 0
+            3 => f.extend([format!("-C{}", w.b), format!("-A{}", w.a)]),
+            4 => f.extend([format!("-A{}", w.a), format!("--context={}", w.b)]),
+            5 => f.extend([format!("-C{}", w.a), format!("-B{}", w.b)]),
+            6 => f.extend([format!("--before-context={}", w.b), format!("-C{}", w.a), "-C9".into(), format!("-C{}", w.a)]),
             _ => f.extend([format!("-A{}", w.a), format!("-B{}", w.b)]),
         }
     }
